@@ -1,10 +1,48 @@
-(* Text/Emit.v -- mirror of `impl Display for Scad` (scad.rs) and of the list Display impls
-   (lib.rs, pt2.rs, pt3.rs, pt4.rs). `fmt` stands for Rust's Display of f64 and `chars` for the
-   code points of a String; both are supplied by the caller (DESIGN.md section 5). *)
+(* Text/Emit.v -- mirror of `impl Display for Scad` (scad.rs) and of the list Display impls (lib.rs,
+   pt2.rs, pt3.rs, pt4.rs), written as a renderer of a spaced statement: every node is
+   name '(' arguments ')' and then ';' or ' {' newline children '}' newline, where an argument is
+   [name '='] value and a value is a number literal, a string literal, a keyword or a bracketed list with
+   the separator the Rust uses at that place ("," for point lists, ", " elsewhere).
+   `fmt` stands for Rust's Display of f64 and `chars` for the code points of a String; both are supplied
+   by the caller (DESIGN.md section 5). The text this produces is compared character for character with the
+   implementation on every run. *)
 From Coq Require Import NArith List String.
 From SCAD Require Import Text.Chars Text.Tree Gen.Enums.
 Import ListNotations.
 Local Open Scope list_scope.
+
+(* spaced values *)
+Inductive sexpr :=
+| SNum (lit : text)                       (* as printed *)
+| SStr (s : text)                         (* code points; printed quoted with OpenSCAD escapes *)
+| SId (s : text)                          (* true / false / undef *)
+| SVec (sep : text) (l : list sexpr).     (* '[' elements joined by sep ']' *)
+Definition sarg := (option text * sexpr)%type.
+
+(* ScadStr: OpenSCAD escapes *)
+Definition esc_char (c : N) : text :=
+  (if N.eqb c 92 then [92; 92] else if N.eqb c 34 then [92; 34] else if N.eqb c 10 then [92; 110]
+   else if N.eqb c 9 then [92; 116] else if N.eqb c 13 then [92; 114] else [c])%N.
+
+Fixpoint join (sep : text) (l : list text) : text :=
+  match l with
+  | [] => []
+  | [x] => x
+  | x :: tl => x ++ sep ++ join sep tl
+  end.
+
+Fixpoint r_expr (e : sexpr) : text :=
+  match e with
+  | SNum l => l
+  | SStr s => [34%N] ++ flat_map esc_char s ++ [34%N]
+  | SId s => s
+  | SVec sep l => [91%N] ++ join sep (map r_expr l) ++ [93%N]
+  end.
+Definition r_arg (a : sarg) : text :=
+  match a with (Some n, e) => n ++ [61%N] ++ r_expr e | (None, e) => r_expr e end.
+Definition comma_sp : text := [44%N; 32%N].
+Definition comma : text := [44%N].
+Definition r_head (name : text) (args : list sarg) : text := name ++ [40%N] ++ join comma_sp (map r_arg args) ++ [41%N].
 
 Section Emit.
   Variables num str : Type.
@@ -12,92 +50,79 @@ Section Emit.
   Variable chars : str -> text.
   Notation scadop := (scadop num str). Notation scad := (scad num str).
 
-  Fixpoint join (sep : text) (l : list text) : text :=
-    match l with
-    | [] => []
-    | [x] => x
-    | x :: tl => x ++ sep ++ join sep tl
-    end.
+  Definition sn (x : num) : sexpr := SNum (fmt x).
+  Definition sN (n : N) : sexpr := SNum (dec_of_N n).
+  Definition sb (b : bool) : sexpr := SId (bool_text b).
+  Definition ss (s : str) : sexpr := SStr (chars s).
+  Definition s2 (p : p2 num) : sexpr := SVec comma_sp [sn (p2x p); sn (p2y p)].
+  Definition s3 (p : p3 num) : sexpr := SVec comma_sp [sn (p3x p); sn (p3y p); sn (p3z p)].
+  Definition s4 (p : p4 num) : sexpr := SVec comma_sp [sn (p4x p); sn (p4y p); sn (p4z p); sn (p4w p)].
+  Definition sidx (l : list N) : sexpr := SVec comma_sp (map sN l).
+  Definition spaths (l : list (list N)) : sexpr := SVec comma_sp (map sidx l).
+  Definition senum (names : list string) (i : N) : sexpr := SStr (s2t (nth (N.to_nat i) names "?"%string)).
+  Definition na (k : string) (e : sexpr) : list sarg := [(Some (s2t k), e)].
+  Definition oa {A} (k : string) (f : A -> sexpr) (o : option A) : list sarg :=
+    match o with Some x => na k (f x) | None => [] end.
+  Definition fafsfn (fa fs : option num) (fn_ : option N) : list sarg := oa "$fa" sn fa ++ oa "$fs" sn fs ++ oa "$fn" sN fn_.
 
-  Definition e_p2 (p : p2 num) : text := s2t "[" ++ fmt (p2x p) ++ s2t ", " ++ fmt (p2y p) ++ s2t "]".
-  Definition e_p3 (p : p3 num) : text :=
-    s2t "[" ++ fmt (p3x p) ++ s2t ", " ++ fmt (p3y p) ++ s2t ", " ++ fmt (p3z p) ++ s2t "]".
-  Definition e_p4 (p : p4 num) : text :=
-    s2t "[" ++ fmt (p4x p) ++ s2t ", " ++ fmt (p4y p) ++ s2t ", " ++ fmt (p4z p) ++ s2t ", " ++ fmt (p4w p) ++ s2t "]".
-  Definition e_p2s (l : list (p2 num)) : text := s2t "[" ++ join (s2t ",") (map e_p2 l) ++ s2t "]".
-  Definition e_p3s (l : list (p3 num)) : text := s2t "[" ++ join (s2t ",") (map e_p3 l) ++ s2t "]".
-  Definition e_indices (l : list N) : text := s2t "[" ++ join (s2t ", ") (map dec_of_N l) ++ s2t "]".
-  Definition e_paths (l : list (list N)) : text := s2t "[" ++ join (s2t ", ") (map e_indices l) ++ s2t "]".
-
-  (* ScadStr: OpenSCAD escapes *)
-  Definition esc_char (c : N) : text :=
-    (if N.eqb c 92 then [92; 92] else if N.eqb c 34 then [92; 34] else if N.eqb c 10 then [92; 110]
-     else if N.eqb c 9 then [92; 116] else if N.eqb c 13 then [92; 114] else [c])%N.
-  Definition e_str (s : str) : text := [34%N] ++ flat_map esc_char (chars s) ++ [34%N].
-
-  Definition e_opt (label : string) (o : option text) : text :=
-    match o with Some t => s2t label ++ t | None => [] end.
-  Definition e_fa_fs_fn (fa fs : option num) (fn_ : option N) : text :=
-    e_opt ", $fa=" (option_map fmt fa) ++ e_opt ", $fs=" (option_map fmt fs) ++ e_opt ", $fn=" (option_map dec_of_N fn_).
-  Definition enum_name (names : list string) (i : N) : text := s2t (nth (N.to_nat i) names "?"%string).
-
-  Definition e_header (o : scadop) : text :=
+  Definition op_ident (o : scadop) : string :=
     match o with
-    | Union => s2t "union() {" ++ [10%N]
-    | Difference => s2t "difference() {" ++ [10%N]
-    | Intersection => s2t "intersection() {" ++ [10%N]
-    | Circle r fa fs fn_ => s2t "circle(r=" ++ fmt r ++ e_fa_fs_fn fa fs fn_ ++ s2t ");"
-    | Square sz c => s2t "square(size=[" ++ fmt (p2x sz) ++ s2t ", " ++ fmt (p2y sz) ++ s2t "], center=" ++ bool_text c ++ s2t ");"
-    | Polygon pts (Some paths) cv =>
-        s2t "polygon(points=" ++ e_p2s pts ++ s2t ", paths=" ++ e_paths paths ++ s2t ", convexity=" ++ dec_of_N cv ++ s2t ");"
-    | Polygon pts None cv =>
-        s2t "polygon(points=" ++ e_p2s pts ++ s2t ", paths=undef, convexity=" ++ dec_of_N cv ++ s2t ");"
+    | Union => "union" | Difference => "difference" | Intersection => "intersection"
+    | Circle _ _ _ _ => "circle" | Square _ _ => "square" | Polygon _ _ _ => "polygon"
+    | Text _ _ _ _ _ _ _ _ _ _ => "text" | Import _ _ => "import" | Projection _ => "projection"
+    | Sphere _ _ _ _ => "sphere" | Cube _ _ => "cube" | Cylinder _ _ _ _ _ _ _ => "cylinder"
+    | Polyhedron _ _ _ => "polyhedron" | LinearExtrude _ _ _ _ _ _ _ => "linear_extrude"
+    | RotateExtrude _ _ _ _ _ => "rotate_extrude" | Surface _ _ _ _ => "surface"
+    | Translate _ => "translate" | Rotate _ _ _ => "rotate" | Scale _ => "scale"
+    | Resize _ _ _ _ _ => "resize" | Mirror _ => "mirror" | Color _ _ _ _ => "color"
+    | Offset _ _ _ => "offset" | Hull => "hull" | Minkowski _ => "minkowski"
+    end%string.
+
+  (* the arguments each header writes, in the order and with the names the Rust writes them *)
+  Definition args_of (o : scadop) : list sarg :=
+    match o with
+    | Union | Difference | Intersection | Hull => []
+    | Circle r fa fs fn_ => na "r" (sn r) ++ fafsfn fa fs fn_
+    | Square sz c => na "size" (s2 sz) ++ na "center" (sb c)
+    | Polygon pts (Some paths) cv => na "points" (SVec comma (map s2 pts)) ++ na "paths" (spaths paths) ++ na "convexity" (sN cv)
+    | Polygon pts None cv => na "points" (SVec comma (map s2 pts)) ++ na "paths" (SId (s2t "undef")) ++ na "convexity" (sN cv)
     | Text t size font ha va sp dir lang script fn_ =>
-        s2t "text(text=" ++ e_str t ++ s2t ", size=" ++ fmt size ++ s2t ", font=" ++ e_str font ++
-        s2t ", halign=""" ++ enum_name halign_names ha ++ s2t """, valign=""" ++ enum_name valign_names va ++
-        s2t """, spacing=" ++ fmt sp ++ s2t ", direction=""" ++ enum_name direction_names dir ++
-        s2t """, language=" ++ e_str lang ++ s2t ", script=" ++ e_str script ++
-        e_opt ", $fn=" (option_map dec_of_N fn_) ++ s2t ");"
-    | Import file cv => s2t "import(file=" ++ e_str file ++ s2t ", convexity=" ++ dec_of_N cv ++ s2t ");"
-    | Projection cut => s2t "projection(cut=" ++ bool_text cut ++ s2t ") {" ++ [10%N]
-    | Sphere r fa fs fn_ => s2t "sphere(r=" ++ fmt r ++ e_fa_fs_fn fa fs fn_ ++ s2t ");"
-    | Cube sz c => s2t "cube(size=" ++ e_p3 sz ++ s2t ", center=" ++ bool_text c ++ s2t ");"
-    | Cylinder h r1 r2 c fa fs fn_ =>
-        s2t "cylinder(h=" ++ fmt h ++ s2t ", r1=" ++ fmt r1 ++ s2t ", r2=" ++ fmt r2 ++ s2t ", center=" ++ bool_text c ++
-        e_fa_fs_fn fa fs fn_ ++ s2t ");"
-    | Polyhedron pts faces cv =>
-        s2t "polyhedron(points=" ++ e_p3s pts ++ s2t ", faces=" ++ e_paths faces ++ s2t ", convexity=" ++ dec_of_N cv ++ s2t ");"
+        na "text" (ss t) ++ na "size" (sn size) ++ na "font" (ss font) ++ na "halign" (senum halign_names ha) ++
+        na "valign" (senum valign_names va) ++ na "spacing" (sn sp) ++ na "direction" (senum direction_names dir) ++
+        na "language" (ss lang) ++ na "script" (ss script) ++ oa "$fn" sN fn_
+    | Import file cv => na "file" (ss file) ++ na "convexity" (sN cv)
+    | Projection cut => na "cut" (sb cut)
+    | Sphere r fa fs fn_ => na "r" (sn r) ++ fafsfn fa fs fn_
+    | Cube sz c => na "size" (s3 sz) ++ na "center" (sb c)
+    | Cylinder h r1 r2 c fa fs fn_ => na "h" (sn h) ++ na "r1" (sn r1) ++ na "r2" (sn r2) ++ na "center" (sb c) ++ fafsfn fa fs fn_
+    | Polyhedron pts faces cv => na "points" (SVec comma (map s3 pts)) ++ na "faces" (spaths faces) ++ na "convexity" (sN cv)
     | LinearExtrude h c cv tw sc slices fn_ =>
-        s2t "linear_extrude(height=" ++ fmt h ++ s2t ", center=" ++ bool_text c ++ s2t ", convexity=" ++ dec_of_N cv ++
-        s2t ", twist=" ++ fmt tw ++ s2t ", scale=" ++ e_p2 sc ++
-        e_opt ", slices=" (option_map dec_of_N slices) ++ e_opt ", $fn=" (option_map dec_of_N fn_) ++ s2t ") {" ++ [10%N]
-    | RotateExtrude a cv fa fs fn_ =>
-        s2t "rotate_extrude(angle=" ++ fmt a ++ s2t ", convexity=" ++ dec_of_N cv ++ e_fa_fs_fn fa fs fn_ ++ s2t ") {" ++ [10%N]
-    | Surface file c inv cv =>
-        s2t "surface(file=" ++ e_str file ++ s2t ", center=" ++ bool_text c ++ s2t ", invert=" ++ bool_text inv ++
-        s2t ", convexity=" ++ dec_of_N cv ++ s2t ");"
-    | Translate v => s2t "translate(v=" ++ e_p3 v ++ s2t ") {" ++ [10%N]
-    | Rotate (Some a) true v => s2t "rotate(a=" ++ fmt a ++ s2t ") {" ++ [10%N]
-    | Rotate (Some a) false v => s2t "rotate(a=" ++ fmt a ++ s2t ", v=" ++ e_p3 v ++ s2t ") {" ++ [10%N]
-    | Rotate None _ v => s2t "rotate(a=" ++ e_p3 v ++ s2t ") {" ++ [10%N]
-    | Scale v => s2t "scale(v=" ++ e_p3 v ++ s2t ") {" ++ [10%N]
-    | Resize ns au false _ cv =>
-        s2t "resize(newsize=" ++ e_p3 ns ++ s2t ", auto=" ++ bool_text au ++ s2t ", convexity=" ++ dec_of_N cv ++ s2t ") {" ++ [10%N]
-    | Resize ns _ true (a1, a2, a3) cv =>
-        s2t "resize(newsize=" ++ e_p3 ns ++ s2t ", auto=[" ++ bool_text a1 ++ s2t ", " ++ bool_text a2 ++ s2t ", " ++
-        bool_text a3 ++ s2t "], convexity=" ++ dec_of_N cv ++ s2t ") {" ++ [10%N]
-    | Mirror v => s2t "mirror(v=" ++ e_p3 v ++ s2t ") {" ++ [10%N]
-    | Color (Some rgba) _ _ _ => s2t "color(c=" ++ e_p4 rgba ++ s2t ") {" ++ [10%N]
-    | Color None (Some c) _ alpha =>
-        s2t "color(""" ++ enum_name color_names c ++ s2t """" ++ e_opt ", alpha=" (option_map fmt alpha) ++ s2t ") {" ++ [10%N]
-    | Color None None (Some hex) _ => s2t "color(" ++ e_str hex ++ s2t ") {" ++ [10%N]
+        na "height" (sn h) ++ na "center" (sb c) ++ na "convexity" (sN cv) ++ na "twist" (sn tw) ++ na "scale" (s2 sc) ++
+        oa "slices" sN slices ++ oa "$fn" sN fn_
+    | RotateExtrude a cv fa fs fn_ => na "angle" (sn a) ++ na "convexity" (sN cv) ++ fafsfn fa fs fn_
+    | Surface file c inv cv => na "file" (ss file) ++ na "center" (sb c) ++ na "invert" (sb inv) ++ na "convexity" (sN cv)
+    | Translate v => na "v" (s3 v)
+    | Rotate (Some a) true _ => na "a" (sn a)
+    | Rotate (Some a) false v => na "a" (sn a) ++ na "v" (s3 v)
+    | Rotate None _ v => na "a" (s3 v)
+    | Scale v => na "v" (s3 v)
+    | Resize ns au false _ cv => na "newsize" (s3 ns) ++ na "auto" (sb au) ++ na "convexity" (sN cv)
+    | Resize ns _ true (a1, a2, a3) cv => na "newsize" (s3 ns) ++ na "auto" (SVec comma_sp [sb a1; sb a2; sb a3]) ++ na "convexity" (sN cv)
+    | Mirror v => na "v" (s3 v)
+    | Color (Some rgba) _ _ _ => na "c" (s4 rgba)
+    | Color None (Some c) _ alpha => [(None, senum color_names c)] ++ oa "alpha" sn alpha
+    | Color None None (Some hex) _ => [(None, ss hex)]
     | Color None None None _ => []
-    | Offset (Some r) _ _ => s2t "offset(r=" ++ fmt r ++ s2t ") {" ++ [10%N]
-    | Offset None (Some d) ch => s2t "offset(delta=" ++ fmt d ++ s2t ", chamfer=" ++ bool_text ch ++ s2t ") {" ++ [10%N]
+    | Offset (Some r) _ _ => na "r" (sn r)
+    | Offset None (Some d) ch => na "delta" (sn d) ++ na "chamfer" (sb ch)
     | Offset None None _ => []
-    | Hull => s2t "hull() {" ++ [10%N]
-    | Minkowski cv => s2t "minkowski(convexity=" ++ dec_of_N cv ++ s2t ") {" ++ [10%N]
+    | Minkowski cv => na "convexity" (sN cv)
     end.
+
+  (* Color / Offset nodes that say nothing write no header at all (they are not well-formed trees) *)
+  Definition e_header (o : scadop) : text :=
+    if op_complete o then r_head (s2t (op_ident o)) (args_of o) ++ (if is_leaf_op o then s2t ";" else s2t " {" ++ [10%N])
+    else [].
 
   Fixpoint emit (t : scad) : text :=
     match t with
